@@ -92,8 +92,7 @@ def _updates(b):
     return [strip_all(a[1]) for _, n, a, _ in b.mut_history(hl[0]) if U.flat(n).endswith("Sha256::update")]
 
 
-def c17_2(ctx):
-    R = "C17.2"
+def c17_2(ctx, R="C17.2"):
     b = U.body(ctx, R, TH + "tree_hash_atom")
     if b:
         u = _updates(b) or []
